@@ -531,7 +531,16 @@ func terminating(s ast.Stmt) bool {
 	case *ast.ForStmt:
 		return st.Cond == nil && !breaksOut(st.Body.List)
 	case *ast.LabeledStmt:
-		return terminating(st.Stmt)
+		// a "break L" anywhere inside leaves the labelled statement (the loops
+		// this rewriter generates are left that way)
+		leaves := false
+		ast.Inspect(st.Stmt, func(n ast.Node) bool {
+			if b, ok := n.(*ast.BranchStmt); ok && b.Tok == token.BREAK && b.Label != nil && b.Label.Name == st.Label.Name {
+				leaves = true
+			}
+			return !leaves
+		})
+		return !leaves && terminating(st.Stmt)
 	case *ast.SwitchStmt, *ast.TypeSwitchStmt:
 		var body *ast.BlockStmt
 		if sw, ok := st.(*ast.SwitchStmt); ok {
